@@ -109,7 +109,7 @@ Judge(S, e, pk) ==
   IF ~WellFormed(S) THEN R(e.k \o ":ill-formed-pre-state", "")
   ELSE IF e.exc # "none" THEN R(e.k \o ":raises:" \o e.exc, "")
   ELSE IF ~WellFormed(P) THEN R(e.k \o ":unknown-order-in-registries", "")
-  ELSE IF "off" \in DOMAIN e.post /\ Len(e.post.off) > 0 THEN R(e.k \o ":value-off-the-lattice:" \o e.post.off[1], "")
+  ELSE IF Proj = "acct" /\ "off" \in DOMAIN e.post /\ Len(e.post.off) > 0 THEN R(e.k \o ":value-off-the-lattice:" \o e.post.off[1], "")
   ELSE IF e.k \in {"cancel", "exec"} /\ e.id \notin 1..Len(S.ord) THEN R(e.k \o ":unknown-order", "")
   ELSE IF e.k = "submit" /\ Proj = "acct" THEN
          LET o == OrderOf(e)
@@ -129,6 +129,12 @@ HasPre == "haspre" \in DOMAIN Traces[tid].hdr /\ Traces[tid].hdr.haspre
 \* (e.sp: the logged pre-state is identical to the previous logged post-state and is not repeated in the file)
 PreOf(e) == IF HasPre /\ ~e.sp THEN FromLog(e.pre) ELSE st
 PokOf(e) == IF HasPre /\ ~e.sp THEN WellFormed(FromLog(e.pre)) /\ PostChecks(e.pre, FromLog(e.pre)) = "ok" ELSE pok
+\* in-vivo: between two order calls anything may happen - except to an order that is final: its record (status,
+\* quantity, price, flags) in the state observed before a call is the one logged when the previous call returned
+FinalKept(S, e) ==
+  (HasPre /\ ~e.sp) =>
+     /\ Len(e.pre.ord) >= Len(S.ord)
+     /\ \A i \in 1..Len(S.ord) : S.ord[i].st # "A" => e.pre.ord[i] = S.ord[i]
 InitOK == WellFormed(FromLog(Traces[tid].init))
 TInit == /\ tid \in 1..Len(Traces) /\ l = 1 /\ hist = <<>> /\ known = {}
          /\ st = FromLog(Traces[tid].init)
@@ -137,7 +143,9 @@ TInit == /\ tid \in 1..Len(Traces) /\ l = 1 /\ hist = <<>> /\ known = {}
                        ELSE IF Traces[tid].hdr.judgeinit /\ PostChecks(Traces[tid].init, FromLog(Traces[tid].init)) # "ok"
                             THEN "init:" \o PostChecks(Traces[tid].init, FromLog(Traces[tid].init)) ELSE "ok")
 TStep == /\ verdict = "ok" /\ l <= Len(Ev(tid))
-         /\ LET e == Ev(tid)[l]  j == Judge(PreOf(e), e, IF e.k = "obs" THEN pok ELSE PokOf(e)) IN
+         /\ LET e == Ev(tid)[l]
+                  j == IF FinalKept(st, e) THEN Judge(PreOf(e), e, IF e.k = "obs" THEN pok ELSE PokOf(e))
+                       ELSE R("between-calls:final-order-changed", "") IN
               /\ verdict' = j.v
               /\ known' = IF j.k = "" THEN known ELSE known \cup {j.k}
               /\ st' = FromLog(e.post)
